@@ -121,6 +121,8 @@ class World(object):
         self.perm = np.random.default_rng(spec['perm_seed']).permutation(nm)
         # filters
         lo, hi = self.wav[0] * 1.05, self.wav[-1] / 1.05
+        if not lo < hi:                      # very narrow wavelength grids (2 close wavelengths)
+            lo, hi = self.wav[0], self.wav[-1] * (1 + 1e-9)
         self.fspec = []
         for f in spec['filters']:
             gf = np.random.default_rng(f['seed'])
